@@ -116,6 +116,10 @@ def to_int(I: Interp, v: SV, node=None) -> SV:
     if k == "str":
         st.log.append("int(str) modelled as uninterpreted str2int (ValueError not modelled)")
         return SV(smt.mk_int(F_str2int(smt.sval(v.t))), T.INT)
+    if k == "float":
+        # int(x) truncates toward zero (A2: the float is a real; overflow/inf/nan not modelled)
+        x = smt.rval(v.t)
+        return SV(smt.mk_int(z3.If(x >= 0, z3.ToInt(x), -z3.ToInt(-x))), T.INT)
     if k == "any":
         x = z3.If(smt.is_int(v.t), smt.ival(v.t), z3.If(smt.is_bool(v.t), z3.If(smt.bval(v.t), 1, 0),
                   z3.If(smt.is_ip(v.t), smt.ipval(v.t), F_str2int(smt.sval(v.t)))))
@@ -183,6 +187,27 @@ def call_ext(I: Interp, name: str, args, kwargs, fr: Frame, node=None):
             st.heap["llen"] = z3.Store(st.arr("llen"), nr, z3.Select(st.arr("llen"), r))
             st.heap["lel"] = z3.Store(st.arr("lel"), nr, z3.Select(st.arr("lel"), r))
         return SV(smt.mk_ref(nr), ty)
+    if name.startswith("gymnasium.spaces.") or name.startswith("gymnasium.spaces.spaces."):
+        from .interp import PSpace
+        if short == "Discrete":
+            n = I.to_sv(args[0] if args else kwargs["n"])
+            if "start" in kwargs or len(args) > 1:
+                raise Refuse("spaces.Discrete with a start offset")
+            st.log.append("gymnasium.spaces.Discrete(n).contains(x)  <=>  x is an int and 0 <= x < n   (assumed library model)")
+            return PSpace("discrete", n=n)
+        if short == "Dict":
+            src = args[0] if args else None
+            st.log.append("gymnasium.spaces.Dict(m).contains(d)  <=>  d is a dict with exactly m's keys and every d[k] in m[k]   (assumed library model)")
+            if src is None:
+                return PSpace("dict", items={})
+            if isinstance(src, PSpace) and src.kind == "raw":
+                return PSpace("dict", items=dict(src.items))
+            if isinstance(src, SV) and T.strip_opt(src.ty).k == "dict":
+                n = smt.simp(z3.Select(st.arr("dsz"), smt.rid(src.t)))
+                if z3.is_int_value(n) and n.as_long() == 0:
+                    return PSpace("dict", items={})
+            raise Refuse("spaces.Dict of a computed mapping")
+        raise Refuse(f"gymnasium space {short}")
     if short == "deepcopy" and args and isinstance(args[0], SV) and T.strip_opt(args[0].ty).k in ("dict", "list"):
         st.log.append("copy.deepcopy(container): a newly allocated container; its contents are left unconstrained (over-approximation)")
         return fresh_container(I, T.strip_opt(args[0].ty))
